@@ -4,6 +4,7 @@ package main
 
 import (
 	"fmt"
+	"os"
 	"go/types"
 	"strings"
 
@@ -41,6 +42,9 @@ type specErr struct{ msg string }
 func (e specErr) Error() string { return "spec: " + e.msg }
 
 func sfail(format string, a ...any) {
+	if os.Getenv("GOVC_DEBUG") != "" {
+		panic(fmt.Sprintf(format, a...))
+	}
 	panic(specErr{fmt.Sprintf(format, a...)})
 }
 
@@ -248,14 +252,16 @@ func (e *Env) eval(x Expr) Val {
 			} else {
 				hi = b.Len
 			}
-			return VSlice{b.Base, plus(b.Off, lo), minus(hi, lo), minus(b.Cap, lo), b.Elem}
+			return VSlice{b.Base, plus(b.Off, lo), minus(hi, lo), minus(b.Cap, lo), b.Elem, b.Reg}
 		}
 		sfail("cannot slice %T", base)
 	case EField:
 		// qualified constant?
 		if id, ok := x.X.(EIdent); ok {
-			if v, ok := e.lookup(id.Name + "." + x.F); ok {
-				return v
+			if _, isVar := e.lookup(id.Name); !isVar {
+				if v, ok := c.eng.namedConst(c, id.Name+"."+x.F); ok {
+					return v
+				}
 			}
 		}
 		base := e.eval(x.X)
@@ -286,7 +292,7 @@ func (e *Env) index(base Val, i string, x Expr) Val {
 	case VStr:
 		return VInt{strAt(b, i)}
 	case VSlice:
-		p := VPtr{Root: rootElem, Ref: b.Base, Idx: plus(b.Off, i), T: b.Elem}
+		p := VPtr{Root: rootElem, Ref: b.Base, Idx: plus(b.Off, i), T: b.Elem, Reg: b.Reg}
 		return c.loadQuiet(e.st, p)
 	case VPtr:
 		// pointer to array
@@ -504,7 +510,7 @@ func (e *Env) call(x ECall) Val {
 				return VInt{fmt.Sprint(arr.Len())}
 			}
 		}
-		sfail("len of %T", v)
+		sfail("len of %T in %s: %+v", v, x, v)
 	case "cap":
 		v := e.eval(x.Args[0])
 		if s, ok := v.(VSlice); ok {
@@ -523,9 +529,43 @@ func (e *Env) call(x ECall) Val {
 		n := *e
 		n.st = e.prev
 		return n.eval(x.Args[0])
+	case "frame_elems": // frame_elems(s): every backing array other than s's is unchanged since old()
+		var base string
+		var elem types.Type
+		switch v := e.eval(x.Args[0]).(type) {
+		case VSlice:
+			base, elem = v.Base, v.Elem
+		case VPtr:
+			if arr, ok := fieldType(v).Underlying().(*types.Array); ok {
+				base, elem = c.arrayBase(v), arr.Elem()
+			}
+		}
+		if base == "" {
+			sfail("frame_elems: need a slice or array")
+		}
+		var parts []string
+		for _, l := range c.elemLeaves(elem) {
+			ms := mapSort(2, l.sort)
+			now, old := c.heapGet(e.st, l.suffix, ms), c.heapGet(e.old, l.suffix, ms)
+			b := c.fresh("q.b")
+			parts = append(parts, fmt.Sprintf("(forall ((%s Int)) (! (=> (not (= %s %s)) (= (select %s %s) (select %s %s))) :pattern ((select %s %s))))", b, b, base, now, b, old, b, now, b))
+		}
+		return VBool{and(parts...)}
+	case "ptr": // ptr(r, "T"): the Int r viewed as a pointer to a T
+		if lit, ok := x.Args[1].(EStr); ok {
+			t := c.eng.lookupType(lit.V)
+			if t == nil {
+				sfail("ptr: unknown type %s", lit.V)
+			}
+			return VPtr{Root: rootObj, Ref: e.evalInt(x.Args[0]), T: t}
+		}
+	case "gf": // gf(p, "name"): ghost Int field of the object p points to
+		if lit, ok := x.Args[1].(EStr); ok {
+			return VInt{sel(c.heapGet(e.st, "G$gf."+lit.V, arrSort(sInt)), e.evalInt(x.Args[0]))}
+		}
 	case "at": // element of a slice at an absolute index of its backing array
 		if s, ok := e.eval(x.Args[0]).(VSlice); ok {
-			p := VPtr{Root: rootElem, Ref: s.Base, Idx: e.evalInt(x.Args[1]), T: s.Elem}
+			p := VPtr{Root: rootElem, Ref: s.Base, Idx: e.evalInt(x.Args[1]), T: s.Elem, Reg: s.Reg}
 			return c.loadQuiet(e.st, p)
 		}
 		sfail("at: not a slice")
@@ -546,8 +586,13 @@ func (e *Env) call(x ECall) Val {
 		a, b := e.evalInt(x.Args[0]), e.evalInt(x.Args[1])
 		return VInt{ite(le(a, b), b, a)}
 	case "base":
-		if s, ok := e.eval(x.Args[0]).(VSlice); ok {
+		switch s := e.eval(x.Args[0]).(type) {
+		case VSlice:
 			return VInt{s.Base}
+		case VPtr:
+			if _, ok := fieldType(s).Underlying().(*types.Array); ok {
+				return VInt{c.arrayBase(s)}
+			}
 		}
 	case "off":
 		switch s := e.eval(x.Args[0]).(type) {
